@@ -187,8 +187,9 @@ BinKF(ev) ==
   LET r == Rule(ev.op, ev.lt, ev.rt)
       o == DecOp(ev.op)
   IN IF r.kind # "dec" \/ TypeErr(ev, r) \/ TypeFree(ev, r) THEN ""
-     ELSE IF o = "rem" /\ DecMultiplierOverflow(ev.op, r.w, ev.lt.s, ev.rt.s)
-          THEN "C12-decimal-rem-multiplier-wraps"       \* pow_wrapping: the power of ten itself wraps
+     (* (the former finding C12-decimal-rem-multiplier-wraps - rem computed the power of   *)
+     (*  ten with pow_wrapping - is fixed in /repo: known_findings.txt `fixed:`; a wrapped  *)
+     (*  remainder is a plain REJECT again)                                                 *)
      ELSE IF ~ev.err \/ BinExpectErr(ev, r) THEN ""
      ELSE IF o \in {"add", "sub", "div", "rem"} /\ ev.ecls = "overflow" /\
              (\/ DecMultiplierOverflow(ev.op, r.w, ev.lt.s, ev.rt.s)
